@@ -42,7 +42,7 @@ func init() {
 		},
 		Quick:    150000,
 		Thorough: 2000000,
-		Require:  []string{"ping.asyncAnswered", "tick.foundInactive", "exchange.endedNormally", "exchange.endedWithError", "peer.silence", "transfer.multiBlock", "ended.byReset", "ended.byExhaustion"},
+		Require:  []string{"ping.asyncAnswered", "tick.foundInactive", "exchange.endedNormally", "exchange.endedWithError", "peer.silence", "transfer.multiBlock", "ended.byReset", "ended.byExhaustion", "ended.byTransferTimeout"},
 		Assume: []string{
 			"the audit happens after every call has returned, every context has ended and simulated time has passed the largest deadline of the run (request deadlines, 5 s block-wise timeout, 247 s exchange lifetime) with housekeeping ticks in between",
 			"observations that are still live (registered, supported, not cancelled) may stay in the observation table; nothing else may stay anywhere",
